@@ -1,6 +1,6 @@
 """Writes /verif/known_findings.json (committed; never modified at run time)."""
 import json
-SEMP = ["C01", "C02", "C03", "C04", "C05", "C06", "C07", "C08", "C29", "C19", "C20", "C21", "C22", "C23", "C25", "C26", "C31"]
+SEMP = ["C01", "C02", "C03", "C04", "C05", "C06", "C07", "C08", "C29", "C13", "C19", "C20", "C21", "C22", "C23", "C25", "C26", "C31"]
 F = []
 
 def known(id, props, what, witness, match=None, match_any=None):
@@ -104,6 +104,15 @@ fixed("FX9-float-parts-type", ["C16"], "c81281a", "float_integer_part/float_frac
 fixed("FX10-arith-typeerror", ["C16", "C27"], "e815c27", "a bitwise operator applied to a float raised Python's TypeError instead of a ProbLog ArithmeticError", "r(X) :- X is 1.5 /\\ 1.")
 fixed("FX11-extension-ad-group-id", ["C29"], "c1ae688", "an AD added to db.extend() could share its group id with an AD of the parent (wrong probabilities)", "base 0.4::a; 0.1::b; 0.3::c :- c, c.  extension += 0.2::a; 0.3::b; 0.5::c.  query b: 0.1 instead of 0.35")
 fixed("FX12-nested-extension-redirect-chain", ["C29"], "b16d578", "a second-level extension lost clauses of a predicate that the base only referenced (placeholder redirect not resolved through ancestors)", "base: 0.1::b :- a, q(X,X). (q undefined); ext1 adds q/2 clause; ext2 adds another q/2 clause; query on ext2 ignores it")
+known("KF15-findall-order-follows-tabled-evaluation", ["C13", "C19"],
+      "the list built by findall/3 has Prolog's elements but not always Prolog's SLD order: answers of a called predicate are tabled (identical answers of different clauses are merged, results are grouped per answer) and results of clause nodes (non-ground facts, rules) and fact nodes of one predicate are delivered in different phases",
+      "p(_,1). p(a,2). p(b,3). p(_,4). p(a,0). w(L) :- findall(N, p(a,N), L).  gives [1,4,2,0], Prolog gives [1,2,4,0]",
+      match={"clause": "findall-order", "mode": "seq"})
+known("KF3b-toplevel-repeated-variable-query-deterministic", ["C13"],
+      "same defect as KF3 on deterministic programs: engine.query(db, p(X,X)) returns answers that are not instances of the query",
+      "p(2,Y). ?- p(X,X).  returns p(2,_) instead of p(2,2)",
+      match_any=[{"clause": c, "repeated_var_query": True} for c in ["answer-set", "answer-multiplicity", "spurious-answer", "prob", "missing-instance"]])
+fixed("FX13-clauseindex-order", ["C13"], "d48c419", "ClauseIndex.find returned candidate clauses out of program order (variable-bucket clauses after constant-bucket ones) and permanently merged buckets", "p(_,1). p(a,2). p(b,3). p(_,4).  engine.query(db, p(a,N)) tried clauses in the order 2,1,4")
 fixed("FX1-break-cycles-true-child", ["C01", "C09"], "29bdee9",
       "AssertionError in LogicFormula.get_node(0) from _break_cycles when a disjunction below an evidence node contains the TRUE node",
       "0.1::h(c1). d(c1). d(c2). p(X) :- d(X), r(c1). p(Y) :- d(Y). r(X) :- p(X). r(Y) :- d(Y), h(X). query(p(c1)). evidence(r(c1)).")
